@@ -49,6 +49,9 @@ _BOOLS = {"words": ("true", "false"), "digits": ("1", "0"), "padded": (" true", 
 _style = ["words"]
 
 
+PROTO11 = "urn:oasis:names:tc:SAML:1.1:protocol urn:oasis:names:tc:SAML:1.0:protocol"
+
+
 def _b(v):
     """lexical form of an xs:boolean in the style of the entity being written"""
     t, f = _BOOLS[_style[0]]
@@ -77,23 +80,31 @@ def _entity(d, lex):
         vals = "".join("<saml:AttributeValue%s>%s</saml:AttributeValue>" % (typ, esc(c)) for c in d["entity_categories"])
         parts.append('<md:Extensions><mdattr:EntityAttributes><saml:Attribute Name="http://macedir.org/entity-category" '
                      'NameFormat="urn:oasis:names:tc:SAML:2.0:attrname-format:uri">%s</saml:Attribute></mdattr:EntityAttributes></md:Extensions>' % vals)
-    idp = d.get("idp")
-    if idp:
+    # role descriptors for other protocols than SAML 2.0 (d["saml11"] = {"idp": {...}, "sp": {...}, "first": bool}): same entity, same role
+    # element, endpoints of their own - nothing of them is a SAML 2.0 endpoint of the entity
+    other = d.get("saml11") or {}
+    idps = [(d.get("idp"), PROTO)] + [(other.get("idp"), PROTO11)]
+    sps = [(d.get("sp"), PROTO)] + [(other.get("sp"), PROTO11)] + [(d.get("sp_second"), PROTO)]      # sp_second: a further SAML 2.0 SPSSODescriptor
+    if other.get("first"):
+        idps.reverse()
+        sps.reverse()
+    for idp, proto in idps:
+      if idp:
         parts.append('<md:IDPSSODescriptor protocolSupportEnumeration="%s"%s>' % (
-            PROTO, ' WantAuthnRequestsSigned="true"' if idp.get("want_authn_requests_signed") else ""))
+            proto, ' WantAuthnRequestsSigned="true"' if idp.get("want_authn_requests_signed") else ""))
         parts.extend(key_descriptor(u, k) for u, k in idp.get("keys", []))
         parts.extend(_endpoint("SingleLogoutService", b, l) for b, l in idp.get("slo", []))
         parts.extend("<md:NameIDFormat>%s</md:NameIDFormat>" % esc(f) for f in idp.get("nameid_formats", []))
         parts.extend(_endpoint("SingleSignOnService", b, l) for b, l in idp.get("sso", []))
         parts.append("</md:IDPSSODescriptor>")
-    sp = d.get("sp")
-    if sp:
+    for sp, proto in sps:
+      if sp:
         attrs = ""
         if sp.get("authn_requests_signed") is not None:
             attrs += ' AuthnRequestsSigned="%s"' % _b(sp["authn_requests_signed"])
         if sp.get("want_assertions_signed") is not None:
             attrs += ' WantAssertionsSigned="%s"' % _b(sp["want_assertions_signed"])
-        parts.append('<md:SPSSODescriptor protocolSupportEnumeration="%s"%s>' % (PROTO, attrs))
+        parts.append('<md:SPSSODescriptor protocolSupportEnumeration="%s"%s>' % (proto, attrs))
         parts.extend(key_descriptor(u, k) for u, k in sp.get("keys", []))
         parts.extend(_endpoint("SingleLogoutService", b, l) for b, l in sp.get("slo", []))
         parts.extend(_endpoint("ManageNameIDService", b, l) for b, l in sp.get("mni", []))
